@@ -567,8 +567,9 @@ Theorem run_is_frun_of_plan : forall k rnds cmd sep aio genfile d fd srcs dd tag
   keys_nodup (dir init) ->
   let w0 := world0 k rnds cmd sep aio genfile d fd srcs in
   let outs := outs_of srcs rnds in
-  (* Clean is reached unless nothing was generated; it acts unless -sep or there is no all-in-one file *)
-  let c := cfg_of w0 (negb (is_empty srcs) && (negb sep && negb (aio =? ""))) dd tags cov in
+  (* Clean acts unless -sep or there is no all-in-one file; that it is not reached at all when nothing was
+     generated is part of the model's [plan] (Fs.reached) *)
+  let c := cfg_of w0 (negb sep && negb (aio =? "")) dd tags cov in
   exists r w', main re_match w0 = (r, w')
     /\ w_trace w' = fst (frun (plan c init outs) k)
     /\ w_fs w' = exec init (w_trace w')
@@ -579,7 +580,7 @@ Proof.
   unfold main, generated. cbn [w0 world0 w_srcs]. fold w0.
   destruct (loop1_spec srcs srcs [] w0) as (w1 & x & A & M). cbn [w0 world0 w_fd w_rnds] in A. fold w0 outs in A.
   assert (R0 : Run w0) by reflexivity.
-  unfold frun, plan. change (c_fd c) with fd.
+  unfold frun, plan, plan1. change (c_fd (reached c outs)) with fd.
   destruct A as (A & RA). cbn [w0 world0 w_left w_trace] in A. rewrite frun0_app, A.
   destruct x as [y|].
   - (* a call of the write loop fails *)
@@ -592,19 +593,25 @@ Proof.
     + (* nothing generated: the warning, no Clean *)
       cbn [List.length Z.of_nat Z.eqb]. cbv beta iota zeta delta [log_nothing].
       exists (Returned tt), w1. split; [reflexivity|].
-      unfold clean_ops, c, cfg_of. cbn [c_clean is_empty negb andb frun0 fst snd]. cbn in T1.
+      unfold clean_ops, reached, c, cfg_of. cbn [outs outs_of c_clean is_nil negb]. rewrite andb_false_r.
+      cbn [frun0 fst snd]. cbn in T1.
       split; [reflexivity|]. split; [rewrite T1; cbn in R1; exact R1|]. split; [reflexivity|].
       destruct C1 as (_&_&_&_&_&_&m&_). exact m.
     + replace (Z.of_nat (List.length (s0 :: srcs')) =? 0)%Z with false
         by (symmetry; apply Z.eqb_neq; cbn [List.length]; lia).
       cbv beta iota zeta delta [log_nothing]. rewrite main_loop2_spec. unfold main_after2.
+      assert (Cr : reached c outs = c).
+      { unfold reached, c, cfg_of, outs. destruct s0 as [n0 cs0].
+        cbn [outs_of is_nil negb c_cmd c_clean c_dirdot c_fixed c_supfix c_tags c_covered c_genfile c_fd].
+        now rewrite andb_true_r. }
+      rewrite Cr.
       set (names := map fst (s0 :: srcs')).
       destruct (add_msgs_keeps names w1) as (b1&b2&b3&b4&b5&b6&b7&b8&b9&b10).
       set (w2 := add_msgs names w1) in *.
       assert (K2 : keys_nodup (dir (w_fs w2))) by (rewrite b1, R1; apply exec_keys; exact K).
       destruct (Clean_spec w2 dd tags cov K2) as (e & w3 & x3 & E3 & (A3 & RA3) & X3 & C3). rewrite E3.
       assert (Cc : cfg_of w2 (negb (w_sep w2) && negb (w_aio w2 =? "")) dd tags cov = c).
-      { unfold c, cfg_of. cbn [is_empty negb andb]. destruct C1 as (c1&c2&c3&c4&c5&c6&_).
+      { unfold c, cfg_of. destruct C1 as (c1&c2&c3&c4&c5&c6&_).
         rewrite b5, b6, b7, b8, b10, c1, c2, c3, c4, c6. reflexivity. }
       rewrite Cc, b1, R1, b2, b3 in A3. rewrite A3.
       assert (R3 : Run w3) by (apply RA3; unfold Run; rewrite b1, b2; exact (RA R0)).
@@ -636,7 +643,7 @@ Hypothesis K : keys_nodup (dir init).
 
 Let outs := outs_of srcs rnds.
 Let w0 k := world0 init k rnds cmd sep aio genfile d fd srcs.
-Let c := cfg_of (w0 None) (negb (is_empty srcs) && (negb sep && negb (aio =? ""))) dd tags cov.
+Let c := cfg_of (w0 None) (negb sep && negb (aio =? "")) dd tags cov.
 Let run k := main re_match (w0 k).
 
 (* no call fails: the calls issued are exactly the model's plan, the run returns, the message lists the outputs *)
@@ -689,17 +696,17 @@ Theorem C17_atomic_at_every_crash_point_src : forall w' p o,
   visible (exec init p) (o_name o) = visible init (o_name o) \/ visible (exec init p) (o_name o) = Some (new_bytes o).
 Proof.
   intros w' p o E P I. destruct run_is_plan as (w'' & E' & T & _). rewrite E in E'. inversion E'; subst w''.
-  rewrite T in P. exact (atomic c init outs G p o P I).
+  rewrite T in P. exact (atomic (reached c outs) init outs (good_reached c init outs G) p o P I).
 Qed.
 
 (* C17_frame (confinement): names that are neither outputs, nor this run's temporaries, nor selected by Clean *)
 Theorem C17_frame_src : forall w' p n,
   run None = (Returned tt, w') -> prefix_of p (w_trace w') ->
-  ~ In n (names outs) -> ~ In n (temps outs) -> ~ In n (victims c (exec init (write_ops (c_fd c) outs))) ->
+  ~ In n (names outs) -> ~ In n (temps outs) -> ~ In n (removed c init outs) ->
   lookup n (dir (exec init p)) = lookup n (dir init) /\ visible (exec init p) n = visible init n.
 Proof.
   intros w' p n E P. destruct run_is_plan as (w'' & E' & T & _). rewrite E in E'. inversion E'; subst w''.
-  rewrite T in P. exact (frame c init outs G p n P).
+  rewrite T in P. exact (frame (reached c outs) init outs (good_reached c init outs G) p n P).
 Qed.
 
 (* C17_only_outputs_and_temps_appear: the program creates nothing under any other name *)
@@ -708,7 +715,7 @@ Theorem C17_only_outputs_and_temps_appear_src : forall w' p n,
   lookup n (dir (exec init p)) <> None -> lookup n (dir init) = None -> In n (names outs) \/ In n (temps outs).
 Proof.
   intros w' p n E P. destruct run_is_plan as (w'' & E' & T & _). rewrite E in E'. inversion E'; subst w''.
-  rewrite T in P. exact (new_names_are_outputs_or_temps c init outs G p n P).
+  rewrite T in P. exact (new_names_are_outputs_or_temps (reached c outs) init outs (good_reached c init outs G) p n P).
 Qed.
 
 (* C17_files_without_the_header_are_never_removed *)
@@ -719,9 +726,9 @@ Theorem C17_files_without_the_header_are_never_removed_src : forall w' p n b,
 Proof.
   intros w' p n b E P Hn V Hg. destruct run_is_plan as (w'' & E' & T & _). rewrite E in E'. inversion E'; subst w''.
   rewrite T in P.
-  destruct (not_selected_untouched c init outs p n G P Hn) as [L V'].
+  destruct (not_selected_untouched (reached c outs) init outs p n (good_reached c init outs G) P Hn) as [L V'].
   - unfold visible in V. destruct (lookup n (dir init)); congruence.
-  - exact (hand_written_not_selected c init n b V Hg).
+  - exact (hand_written_not_selected (reached c outs) init n b V Hg).
   - split; [exact L|congruence].
 Qed.
 
@@ -731,13 +738,13 @@ Theorem C17_after_a_failing_call_src : forall k x r w',
   let s := w_fs w' in
   fatal r /\
   (forall o, In o outs -> visible s (o_name o) = visible init (o_name o) \/ visible s (o_name o) = Some (new_bytes o)) /\
-  (forall n, ~ In n (names outs) -> ~ In n (temps outs) -> ~ In n (victims c (exec init (write_ops (c_fd c) outs))) ->
+  (forall n, ~ In n (names outs) -> ~ In n (temps outs) -> ~ In n (removed c init outs) ->
      lookup n (dir s) = lookup n (dir init) /\ visible s n = visible init n) /\
   (forall j, j < next init -> data s j = data init j).
 Proof.
   intros k x r w' N C E. destruct (run_is_faulted_plan k x N C) as (r' & w'' & E' & F & T & S).
   rewrite E in E'. inversion E'; subst r' w''. cbn zeta. rewrite S.
-  destruct (faulted_invariants c init outs G k) as (A & B & _ & D). auto.
+  destruct (faulted_invariants (reached c outs) init outs (good_reached c init outs G) k) as (A & B & _ & D). auto.
 Qed.
 
 (* C17_no_temp_left_unless_the_rename_failed *)
@@ -746,7 +753,7 @@ Theorem C17_no_temp_left_unless_the_rename_failed_src : forall k x t r w',
   In t (temps outs) -> lookup t (dir (w_fs w')) = None.
 Proof.
   intros k x t r w' N C R E I. destruct (run_is_faulted_plan k x N C) as (r' & w'' & E' & F & T & S).
-  rewrite E in E'. inversion E'; subst r' w''. rewrite S. exact (faulted_no_temp_left c init outs G k x t N C R I).
+  rewrite E in E'. inversion E'; subst r' w''. rewrite S. exact (faulted_no_temp_left (reached c outs) init outs (good_reached c init outs G) k x t N C R I).
 Qed.
 
 (* ---- C18_partial_write_is_a_prefix, for the program: whatever call fails (or none), the outputs already renamed into
@@ -783,7 +790,8 @@ Qed.
 Lemma renamed_prefix_of_plan p : prefix_of p (plan c init outs) ->
   exists j, renamed p = firstn j (names outs) /\ (p = plan c init outs -> j = List.length outs).
 Proof.
-  intros P. unfold plan in *. apply prefix_of_app in P as [P|(q & -> & Q)].
+  intros P. unfold plan, plan1 in *. change (c_fd (reached c outs)) with (c_fd c) in *.
+  apply prefix_of_app in P as [P|(q & -> & Q)].
   - destruct (prefix_write _ _ _ P) as (done & rest & q & E & -> & Hq).
     exists (List.length done). rewrite renamed_app, renamed_write_ops.
     assert (Nq : renamed q = []).
@@ -803,7 +811,7 @@ Proof.
         - rewrite write_ops_cons, note_down_split, Hr, !app_length in Ep. cbn in Ep. lia. }
       rewrite E, app_nil_r. reflexivity.
   - exists (List.length outs). rewrite renamed_app, renamed_write_ops.
-    rewrite (renamed_none q (norename_prefix _ _ Q (ru_norename _ (clean_ops_ru c _)))), app_nil_r.
+    rewrite (renamed_none q (norename_prefix _ _ Q (ru_norename _ (clean_ops_ru (reached c outs) _)))), app_nil_r.
     unfold names. rewrite <- (map_length o_name outs), firstn_all. auto.
 Qed.
 
